@@ -658,14 +658,20 @@ void run_case(const uint64_t seed, const long id, const std::vector<std::string>
         if (status != 2 && !valid) fail(id, "non-finite-result-without-failed-status");
         if (status == 0 && !g_dns.empty() && g_dns.back().ret && sd.body == 0) fail(id, "gd-max-iters-after-stop");
         if (sd.body != 0 && !valid && g_dns.size() > 1) fail(id, "invalid-state-returned-by-cstate-or-pstate-solver");
-        // candidate (theorem C02_lsloop_not_worse_unless_failed_refuted): a FAILED line search reported as `converged`
+        // repo commit 85997bc (found by this stage: theorem C02_lsloop_not_worse_unless_failed, formerly ..._refuted): a FAILED line
+        // search is never reported as `converged`, whatever the gradient test says at its last trial point
         if (status == 1 && !g_dns.empty() && !g_dns.back().iter_ok)
         {
-            g_hist["converged_after_failed_line_search"] += 1;
-            if (state.fx() > g_dns[0].fx)
-                std::printf("CAND %ld converged-after-failed-line-search-worse-than-start f=%s f0=%s solver=%s lsearchk=%s max_iterations=%d\n", id,
-                            vh::hexf(state.fx()).c_str(), vh::hexf(g_dns[0].fx).c_str(), sd.id, ALGS[c.alg], c.maxit);
+            fail(id, std::string("converged-after-failed-line-search f=") + vh::hexf(state.fx()) + " f0=" + vh::hexf(g_dns[0].fx) + " solver=" + sd.id +
+                         " lsearchk=" + ALGS[c.alg] + " max_iterations=" + std::to_string(c.maxit));
         }
+        // ... hence, with an Armijo-type search: unless failed, the value is not larger than the starting value (binary64, no slack)
+        if (status != 2 && c.alg <= 2 && !g_dns.empty() && !(state.fx() <= g_dns[0].fx))
+        {
+            fail(id, std::string("worse-than-start-unless-failed f=") + vh::hexf(state.fx()) + " f0=" + vh::hexf(g_dns[0].fx) + " status=" + std::to_string(status) +
+                         " lsearchk=" + ALGS[c.alg] + " max_iterations=" + std::to_string(c.maxit));
+        }
+        if (status == 2 && !g_dns.empty() && !g_dns.back().iter_ok && g_dns.back().conv && g_dns.back().valid) g_hist["failed_line_search_on_a_point_passing_the_gradient_test"] += 1;
         if (g_dns.empty() || !g_dns[0].iter_ok) fail(id, "first-done-call");
         for (size_t j = 0; j + 1 < g_dns.size(); ++j)
             if (g_dns[j].ret) fail(id, "loop-continues-after-done-returned-true");
